@@ -1,6 +1,52 @@
+mod abs;
+mod pipeline;
+use dfir_lang::diagnostic::Diagnostics;
+use dfir_lang::graph::DfirGraph;
+use pipeline::*;
 fn main() {
     let args = vcommon::Args::parse();
     if args.prop == "NONE" {
+        return;
+    }
+    if args.prop == "PROBE" {
+        let text = std::fs::read_to_string(&args.rest[0]).unwrap();
+        for prog in text.split("=====") {
+            println!("---- {}", prog.trim());
+            match stages(prog) {
+                Staged::ParseErr(e) => println!("parse err {e}"),
+                Staged::BuildPanic(e) => println!("build panic {e}"),
+                Staged::BuildErr(e) => println!("build err {e:?}"),
+                Staged::MergeErr(e) => println!("merge err {e}"),
+                Staged::ElimPanic { msg, .. } => println!("elim panic {msg}"),
+                Staged::AdjacentHandoffs { .. } => println!("adjacent"),
+                Staged::Partitioned { flat, uses, warnings, part, .. } => {
+                    println!("warnings {warnings:?}");
+                    match part {
+                        Part::Panic(p) => println!("partition panic {p}"),
+                        Part::Err { msg, flat: fg } => { println!("partition err {msg}"); println!("labels {:?}", labels(&fg)); }
+                        Part::Ok(g) => {
+                            let a = abs::abstract_graph(&g);
+                            println!("flat {}", flat.to_json());
+                            println!("part {}", a.to_json());
+                            let c = as_code(&g, uses.clone());
+                            let js = serde_json::to_string(&g).unwrap();
+                            let mut g2: DfirGraph = serde_json::from_str(&js).unwrap();
+                            let mut d = Diagnostics::new();
+                            g2.insert_node_op_insts_all(&mut d);
+                            println!("reload diags {:?}", diag_strings(&d));
+                            let a2 = abs::abstract_graph(&g2);
+                            println!("abs equal {}", a == a2);
+                            if a != a2 { println!("reloaded {:?}", a2.nodes); }
+                            let c2 = as_code(&g2, uses.clone());
+                            println!("code equal {}", c == c2);
+                            match (&c, &c2) { (Code::Ok{code,..}, Code::Ok{code:code2,..}) => { println!("len {} {}", code.len(), code2.len()); if code != code2 { let i = code.bytes().zip(code2.bytes()).position(|(a,b)| a!=b).unwrap_or(0); println!("A: {}\nB: {}", &code[i.saturating_sub(80)..(i+200).min(code.len())], &code2[i.saturating_sub(80)..(i+200).min(code2.len())]); } }, _ => println!("{c:?}\n{c2:?}") }
+                            println!("mermaid equal {}", g.to_mermaid(&Default::default()) == g2.to_mermaid(&Default::default()));
+                            if args.rest.len() > 1 { println!("{}", g.to_mermaid(&Default::default())); println!("{}", g2.to_mermaid(&Default::default())); }
+                        }
+                    }
+                }
+            }
+        }
         return;
     }
     eprintln!("not implemented yet");
